@@ -34,6 +34,10 @@ func c02Values() []c02Value {
 	for i := 0; i < 50; i++ {
 		many = append(many, fmt.Sprintf("group-%02d@example.com", i))
 	}
+	var veryMany []string
+	for i := 0; i < 300; i++ {
+		veryMany = append(veryMany, fmt.Sprintf("team-%04d-of-a-large-organisation@example.com", i))
+	}
 	now := harness.T0.Truncate(time.Second)
 	newS := func() interface{} { return &sessions.SessionState{} }
 	return []c02Value{
@@ -42,6 +46,7 @@ func c02Values() []c02Value {
 			LifetimeDeadline: now.Add(time.Hour), RefreshDeadline: now.Add(time.Minute), ValidDeadline: now.Add(time.Second), Groups: []string{"eng"}, AuthorizedUpstream: "a.sso.test"}, newS},
 		{"session-unicode", &sessions.SessionState{ProviderSlug: "idp", Email: "jörg.müller@exämple.com", User: "jörg.müller", AccessToken: strings.Repeat("tökén", 40), Groups: []string{"ünïcode-group"}}, newS},
 		{"session-50-groups", &sessions.SessionState{ProviderSlug: "idp", Email: "bob@corp.test", AccessToken: strings.Repeat("A", 600), RefreshToken: strings.Repeat("R", 300), Groups: many}, newS},
+		{"session-300-groups", &sessions.SessionState{ProviderSlug: "idp", Email: "bob@corp.test", AccessToken: strings.Repeat("A", 900), RefreshToken: strings.Repeat("R", 600), Groups: veryMany}, newS},
 		{"flow-record", &proxy.StateParameter{SessionID: "0123456789abcdef0123456789abcdef0123456789abcdef0123456789abcdef", RedirectURI: "/private/page?x=1"}, func() interface{} { return &proxy.StateParameter{} }},
 	}
 }
@@ -65,6 +70,30 @@ func c02Run(c *fw.Ctx) {
 	k64 := bytes.Repeat([]byte{0x77}, 64)
 	c3, _ := aead.NewMiscreantCipher(k64)
 	ciphers := map[string]aead.Cipher{"K1": c1, "K2": c2, "K3-64byte": c3}
+	// neighbouring keys: the same key with one byte (first, last, byte 32) or one half changed
+	variant := func(k []byte, f func(b []byte)) aead.Cipher {
+		b := append([]byte(nil), k...)
+		f(b)
+		ci, err := aead.NewMiscreantCipher(b)
+		if err != nil {
+			panic(err)
+		}
+		return ci
+	}
+	ciphers["K1-last-byte-differs"] = variant(k1, func(b []byte) { b[31] ^= 1 })
+	ciphers["K1-first-byte-differs"] = variant(k1, func(b []byte) { b[0] ^= 1 })
+	ciphers["K3-last-byte-differs"] = variant(k64, func(b []byte) { b[63] ^= 1 })
+	ciphers["K3-byte-32-differs"] = variant(k64, func(b []byte) { b[32] ^= 0x80 })
+	ciphers["K3-second-half-differs"] = variant(k64, func(b []byte) {
+		for i := 32; i < 64; i++ {
+			b[i] = 0x11
+		}
+	})
+	ciphers["K3-first-half-differs"] = variant(k64, func(b []byte) {
+		for i := 0; i < 32; i++ {
+			b[i] = 0x11
+		}
+	})
 	store, err := sessions.NewCookieStore(harness.CookieName, sessions.CreateMiscreantCookieCipher(k1))
 	if err != nil {
 		panic(err)
@@ -140,7 +169,7 @@ func c02Run(c *fw.Ctx) {
 				}
 			}
 			// corruption operators
-			small := v.Name != "session-50-groups" && v.Name != "session-unicode"
+			small := v.Name != "session-50-groups" && v.Name != "session-unicode" && v.Name != "session-300-groups"
 			cands := c02Corruptions(sealed, raw, small || c.Thorough())
 			apis := []string{"Unmarshal", "UnmarshalSession", "LoadSession"}
 			for _, cd := range cands {
@@ -252,6 +281,28 @@ const b64url = "ABCDEFGHIJKLMNOPQRSTUVWXYZabcdefghijklmnopqrstuvwxyz0123456789-_
 
 func c02Corruptions(sealed string, raw []byte, full bool) []c02Candidate {
 	var out []c02Candidate
+	if len(raw) > 3000 && !full {
+		// very long values (quick tier): bit flips and truncations at every 16th byte plus the last 64
+		add := func(op, s string) { out = append(out, c02Candidate{op, s}) }
+		enc := base64.RawURLEncoding.EncodeToString
+		for i := range raw {
+			if i%16 != 0 && i < len(raw)-64 {
+				continue
+			}
+			for b := 0; b < 8; b++ {
+				m := append([]byte(nil), raw...)
+				m[i] ^= 1 << uint(b)
+				add("bit-flip", enc(m))
+			}
+			add("truncate-bytes-prefix", enc(raw[:i]))
+			if i > 0 {
+				add("truncate-bytes-suffix", enc(raw[i:]))
+			}
+		}
+		add("extend-bytes-end", enc(append(append([]byte(nil), raw...), 0)))
+		add("re-pad", sealed+"=")
+		return out
+	}
 	add := func(op, s string) { out = append(out, c02Candidate{op, s}) }
 	enc := base64.RawURLEncoding.EncodeToString
 	// single-bit flips of every byte
@@ -323,7 +374,7 @@ func init() {
 	fw.Register(&fw.Check{
 		ID:    "C02",
 		Level: "exploration",
-		Rule: "for 5 genuine values (empty session, small session, unicode session, 50-group session with long tokens, flow record) sealed by the real MiscreantCipher under 2-3 keys (32- and 64-byte): every single-bit flip of every byte, every prefix/suffix truncation of the string and of the bytes, " +
+		Rule: "for 6 genuine values (empty session, small session, unicode session, 50-group session with long tokens, 300-group session of >16 KiB, flow record) sealed by the real MiscreantCipher under 32- and 64-byte keys and presented to 8 other keys (unrelated keys and neighbours differing in the first / last / 33rd byte or in one half): every single-bit flip of every byte, every prefix/suffix truncation of the string and of the bytes, " +
 			"extension by every byte value and every alphabet character at either end, every single-character substitution from the base64url alphabet plus '=+/ LF', CR/LF insertion at every position, re-encodings and re-padding, presentation under every other key (thorough: all double-bit flips of two values); " +
 			"each candidate goes to Cipher.Unmarshal, sessions.UnmarshalSession and CookieStore.LoadSession. Oracle: a candidate that is not a string sso itself produced must be rejected with an error and yield no data; genuine values round-trip deep-equal; seals are pairwise distinct; sealed bytes contain neither plaintext fields nor the compressed plaintext. " +
 			"distinct_nontrivial = distinct (corruption operator, API, rejected?) triples",
